@@ -81,19 +81,26 @@ enum Op {
     Ins3,
     Ins56,
     Ins4,
+    /// re-insertion of height 1 after `remove_height 1` (adjacent to a stored 2): the inserted
+    /// range intersects the pruned ranges
+    Ins1,
     Rem1,
+    /// removal of a height that can be sampled and carry metadata
+    Rem2,
     Mark2,
     Meta2,
     /// unchecked batch [A4, A4]: always refused, inside the write transaction (after the first
     /// table mutation when 4..=4 is insertable, by the constraints otherwise)
     RejIns,
 }
-const ALPHABET: [Op; 8] = [
+const ALPHABET: [Op; 10] = [
     Op::Ins12,
     Op::Ins3,
     Op::Ins56,
     Op::Ins4,
+    Op::Ins1,
     Op::Rem1,
+    Op::Rem2,
     Op::Mark2,
     Op::Meta2,
     Op::RejIns,
@@ -102,7 +109,8 @@ const ALPHABET: [Op; 8] = [
 #[derive(Clone, Copy, Debug, PartialEq, Eq, Hash, PartialOrd, Ord, Serialize, Deserialize)]
 enum Start {
     Empty,
-    /// cleanly closed database holding 1..=2 and 5..=6, metadata {c1} at height 2
+    /// cleanly closed database holding 1..=2 and 5..=6, metadata {c1} at height 2, and height 3
+    /// inserted and removed again (so 3 is pruned and `insert 3..=3` re-inserts a pruned height)
     Populated,
 }
 
@@ -150,6 +158,15 @@ impl Model {
         }
         true
     }
+    fn remove(&mut self, h: u64) -> bool {
+        if !self.stored.remove(&h) {
+            return false;
+        }
+        self.sampled.remove(&h);
+        self.pruned.insert(h);
+        self.meta.remove(&h);
+        true
+    }
     /// Applies `op`; returns whether the statement says it succeeds.
     fn apply(&mut self, op: Op) -> bool {
         match op {
@@ -157,15 +174,9 @@ impl Model {
             Op::Ins3 => self.insert(3, 3),
             Op::Ins56 => self.insert(5, 6),
             Op::Ins4 => self.insert(4, 4),
-            Op::Rem1 => {
-                if !self.stored.remove(&1) {
-                    return false;
-                }
-                self.sampled.remove(&1);
-                self.pruned.insert(1);
-                self.meta.remove(&1);
-                true
-            }
+            Op::Ins1 => self.insert(1, 1),
+            Op::Rem1 => self.remove(1),
+            Op::Rem2 => self.remove(2),
             Op::Mark2 => {
                 if !self.stored.contains(&2) {
                     return false;
@@ -182,6 +193,8 @@ impl Model {
         assert!(m.insert(1, 2));
         assert!(m.insert(5, 6));
         assert!(m.add_meta(2, &[0]));
+        assert!(m.insert(3, 3));
+        assert!(m.remove(3));
         m
     }
 }
@@ -307,7 +320,9 @@ async fn apply_real(s: &RedbStore, fx: &Fx, op: Op) -> Result<(), StoreError> {
         Op::Ins3 => s.insert(fx.range(3, 3)).await,
         Op::Ins56 => s.insert(fx.range(5, 6)).await,
         Op::Ins4 => s.insert(fx.range(4, 4)).await,
+        Op::Ins1 => s.insert(fx.range(1, 1)).await,
         Op::Rem1 => s.remove_height(1).await,
+        Op::Rem2 => s.remove_height(2).await,
         Op::Mark2 => s.mark_as_sampled(2).await,
         Op::Meta2 => s.update_sampling_metadata(2, vec![fx.cids[0], fx.cids[1]]).await,
         Op::RejIns => {
@@ -358,6 +373,10 @@ struct Run {
     /// shape hash of log[..steps[i].end] for every step i
     shape_at: Vec<u64>,
     live_violations: Vec<(String, String)>,
+    /// the last operation is an accepted insert whose range intersects the pruned ranges
+    last_inserts_into_pruned: bool,
+    /// the last operation is an accepted removal of a sampled height
+    last_removes_sampled: bool,
 }
 
 /// Shape of a log: per sync window the *sorted* (kind, offset, len) triples — redb flushes its
@@ -397,6 +416,8 @@ fn build_populated(fx: &Fx) -> Vec<u8> {
         s.insert(fx.range(1, 2)).await.expect("base insert 1..=2");
         s.insert(fx.range(5, 6)).await.expect("base insert 5..=6");
         s.update_sampling_metadata(2, vec![fx.cids[0]]).await.expect("base meta");
+        s.insert(fx.range(3, 3)).await.expect("base insert 3..=3");
+        s.remove_height(3).await.expect("base remove 3");
         let o = observe(&s, fx).await;
         assert_eq!(o, Model::populated().obs(), "base image disagrees with the model");
         s.close().await.expect("close");
@@ -414,6 +435,8 @@ fn run_history(start: Start, ops: &[Op], base: &Arc<Vec<u8>>, fx: &Fx) -> Run {
     let mut models = vec![m0.clone()];
     let mut live: Vec<(String, String)> = vec![];
     let mut cur = m0;
+    let mut ins_pruned = false;
+    let mut rem_sampled = false;
 
     let r = guard(|| {
         let db = match open_db(be.clone()) {
@@ -437,7 +460,10 @@ fn run_history(start: Start, ops: &[Op], base: &Arc<Vec<u8>>, fx: &Fx) -> Run {
             models.push(cur.clone());
             for op in ops {
                 let got = apply_real(&s, fx, *op).await;
+                let before = cur.clone();
                 let want = cur.apply(*op);
+                ins_pruned = want && before.pruned.iter().any(|h| !before.stored.contains(h) && cur.stored.contains(h));
+                rem_sampled = want && before.sampled.iter().any(|h| !cur.stored.contains(h));
                 steps.push(StepInfo { name: format!("{op:?}"), end: be.log_len(), ok: got.is_ok() });
                 models.push(cur.clone());
                 if got.is_ok() != want {
@@ -475,6 +501,8 @@ fn run_history(start: Start, ops: &[Op], base: &Arc<Vec<u8>>, fx: &Fx) -> Run {
         model_obs,
         shape_at,
         live_violations: live,
+        last_inserts_into_pruned: ins_pruned,
+        last_removes_sampled: rem_sampled,
     }
 }
 
@@ -842,6 +870,13 @@ fn main() {
     let index: HashMap<(Start, Vec<Op>), usize> =
         runs.iter().enumerate().map(|(i, r)| ((r.start, r.ops.clone()), i)).collect();
     rep.extra("histories", json!(runs.len()));
+    let n_ip = runs.iter().filter(|r| r.last_inserts_into_pruned).count();
+    let n_rs = runs.iter().filter(|r| r.last_removes_sampled).count();
+    rep.extra("histories_whose_last_op_inserts_into_pruned_ranges", json!(n_ip));
+    rep.extra("histories_whose_last_op_removes_a_sampled_height", json!(n_rs));
+    if n_ip == 0 || n_rs == 0 {
+        machinery_error(&ctx.id, "vacuous alphabet: no history re-inserts a pruned height / removes a sampled height");
+    }
     rep.extra("live_run_wall_s", json!(t0.elapsed().as_secs_f64()));
 
     let mut writes_per_window: BTreeMap<usize, u64> = BTreeMap::new();
@@ -976,7 +1011,7 @@ fn finish_c22(ctx: &Ctx, rep: Report) -> ! {
         ctx,
         rep,
         Spec {
-            rule: "histories = all sequences of length <= 2 (quick) / <= 3 (thorough) over {insert 1..=2, insert 3..=3, insert 5..=6, insert 4..=4, remove_height 1, mark_as_sampled 2, update_sampling_metadata 2 [c1,c2], refused unchecked insert [A4,A4]} x start in {empty backend, cleanly closed db holding 1..=2,5..=6 + metadata}; each run = steps DbOpen, StoreNew, ops, Close on the real RedbStore over a logging StorageBackend; crash space = every log prefix p x every subset of the whole writes issued after the last non-eventual sync_data in the prefix (eventual syncs act as barriers; set_len applies at once); scenarios of one sync window that leave the same image are reopened once and judged for each of their crash points; windows of steps shared with the prefix history are enumerated under that history only (log shapes compared per window, order-insensitively); evaluation = one crash image reopened with redb::Database + RedbStore::new and totally observed (ranges, head, get_by_height/has_at/get_sampling_metadata for h in 0..=7, get_by_hash/has for A1..A6), compared with the reference-model states after j steps for all j >= number of steps returned before p; distinct = (start, history, window, subset, set_lens applied); non-trivial = the window holds at least one unsynced write",
+            rule: "histories = all sequences of length <= 2 (quick) / <= 3 (thorough) over {insert 1..=2, insert 3..=3, insert 5..=6, insert 4..=4, insert 1..=1 (re-insertion after remove_height 1), remove_height 1, remove_height 2, mark_as_sampled 2, update_sampling_metadata 2 [c1,c2], refused unchecked insert [A4,A4]} x start in {empty backend, cleanly closed db holding 1..=2,5..=6 + metadata at 2 and height 3 pruned (inserted and removed)} — so inserts into pruned ranges (populated: insert 3..=3; remove_height 1 then insert 1..=1) and removals of sampled heights (mark_as_sampled 2 then remove_height 2) occur within length 2; each run = steps DbOpen, StoreNew, ops, Close on the real RedbStore over a logging StorageBackend; crash space = every log prefix p x every subset of the whole writes issued after the last non-eventual sync_data in the prefix (eventual syncs act as barriers; set_len applies at once); scenarios of one sync window that leave the same image are reopened once and judged for each of their crash points; windows of steps shared with the prefix history are enumerated under that history only (log shapes compared per window, order-insensitively); evaluation = one crash image reopened with redb::Database + RedbStore::new and totally observed (ranges, head, get_by_height/has_at/get_sampling_metadata for h in 0..=7, get_by_hash/has for A1..A6), compared with the reference-model states after j steps for all j >= number of steps returned before p; distinct = (start, history, window, subset, set_lens applied); non-trivial = the window holds at least one unsynced write",
             assumptions: &[
                 "whole-write atomicity: a single StorageBackend::write is persisted entirely or not at all (no torn write)",
                 "records issued before a completed non-eventual sync_data are durable; later writes survive in any subset; set_len (file length) takes effect at once and durably — only whole writes are lost, as in the property's quantifier",
